@@ -1,8 +1,9 @@
 (* Property C01 — rule-free validation is exactly "same shape as the example": the
    operational validator model accepts a document iff it has the example's shape (no bound
-   on depth or size), for every schema without a nullable container; with one, null is
-   refused although the shape allows it (known finding C01-nullable-container), and that is
-   the only way the two differ.  The verdict does not depend on the order of the document's
+   on depth or size), for every schema, unconditionally.  No known finding any more: the
+   former finding C01-nullable-container (a nullable object/array refused null) was repaired
+   by commit 3827ce7; a nullable container now accepts null and a non-nullable one refuses it
+   with its lexeme error.  The verdict does not depend on the order of the document's
    properties; KeysAreOptionalByDefault only makes unmarked keys optional.
    Only statements; proofs live in Schema/ShapeProofs.v. *)
 From Coq Require Import List NArith Bool Arith Permutation.
@@ -10,16 +11,20 @@ From Coq Require Import Strings.Byte.
 Import ListNotations.
 From JS Require Import Common.Wire Schema.Shape Schema.ShapeProofs.
 
-Theorem C01_validate_iff_shape : forall n v, no_nullable_container n = true ->
-  (validate n v = None <-> shape_ok n v = true).
+Theorem C01_validate_iff_shape : forall n v, validate n v = None <-> shape_ok n v = true.
 Proof. exact validate_iff_shape. Qed.
 Print Assumptions C01_validate_iff_shape.
 
-(* known finding C01-nullable-container *)
-Theorem C01_nullable_container_refuted :
-  exists n v, shape_ok n v = true /\ validate n v = Some E_LEX_OBJECT.
-Proof. exact nullable_container_refuted. Qed.
-Print Assumptions C01_nullable_container_refuted.
+(* the former finding C01-nullable-container, repaired by commit 3827ce7 *)
+Theorem C01_nullable_container_accepts_null : forall ms items an,
+  validate (SObj ms true an) JNull = None /\ validate (SArr items true an) JNull = None.
+Proof. exact nullable_container_accepts_null. Qed.
+Print Assumptions C01_nullable_container_accepts_null.
+
+Theorem C01_non_nullable_container_rejects_null : forall ms items,
+  validate (SObj ms false false) JNull = Some E_LEX_OBJECT /\ validate (SArr items false false) JNull = Some E_LEX_ARRAY.
+Proof. exact non_nullable_container_rejects_null. Qed.
+Print Assumptions C01_non_nullable_container_rejects_null.
 
 Theorem C01_validate_shape_disagree_only_nullable : forall n v,
   (validate n v = None -> shape_ok n v = true).
@@ -31,8 +36,7 @@ Theorem C01_shape_ok_perm : forall ms nl an dms dms', Permutation dms dms' ->
 Proof. exact shape_ok_perm. Qed.
 Print Assumptions C01_shape_ok_perm.
 
-Theorem C01_validate_perm : forall ms nl an dms dms',
-  no_nullable_container (SObj ms nl an) = true -> Permutation dms dms' ->
+Theorem C01_validate_perm : forall ms nl an dms dms', Permutation dms dms' ->
   (validate (SObj ms nl an) (JObj dms) = None <-> validate (SObj ms nl an) (JObj dms') = None).
 Proof. exact validate_perm. Qed.
 Print Assumptions C01_validate_perm.
@@ -67,7 +71,6 @@ Example C01_example :
                 false false in
   let n := compile false w in
   let doc inner := JObj [([x61], JArr inner)] in
-  no_nullable_container n = true /\
   (* accepted: {"a":[{"b":1},{"c":"s","b":2}]} *)
   validate n (doc [JObj [([x62], JInt)]; JObj [([x63], JStr); ([x62], JInt)]]) = None /\
   shape_ok n (doc [JObj [([x62], JInt)]; JObj [([x63], JStr); ([x62], JInt)]]) = true /\
@@ -80,4 +83,18 @@ Example C01_example :
   (* wrong kind: {"a":[{"b":"s"}]} *)
   validate n (doc [JObj [([x62], JStr)]]) = Some 210 /\
   shape_ok n (doc [JObj [([x62], JStr)]]) = false.
+Proof. vm_compute. repeat split; reflexivity. Qed.
+
+(* non-vacuity, nullable containers (fix 3827ce7): {"a": [1] /* nullable */} /* nullable */ *)
+Example C01_example_nullable :
+  let n := SObj [([x61], true, SArr [SLit KInt false false] true false)] true false in
+  no_nullable_container n = false /\
+  (* null at the root and null at the nullable array are accepted *)
+  validate n JNull = None /\ shape_ok n JNull = true /\
+  validate n (JObj [([x61], JNull)]) = None /\ shape_ok n (JObj [([x61], JNull)]) = true /\
+  validate n (JObj [([x61], JArr [JInt; JInt])]) = None /\
+  (* another literal: invalid value type; a container of the other kind: or-rule-set error *)
+  validate n JStr = Some 210 /\ shape_ok n JStr = false /\
+  validate n (JArr []) = Some 204 /\ shape_ok n (JArr []) = false /\
+  validate n (JObj [([x61], JObj [])]) = Some 204 /\ shape_ok n (JObj [([x61], JObj [])]) = false.
 Proof. vm_compute. repeat split; reflexivity. Qed.
